@@ -360,6 +360,8 @@ def run(ctx):
     import props.C07_spans as SP
     import props.C11_italics as IT
     SP.prove_span_balance(ctx)
+    import props.C07_span_tag as ST_
+    ST_.prove_span_tag(ctx)
     IT.prove_passes(ctx)
     import props.C05_captions as CP
     CP.prove_captions(ctx)
